@@ -23,7 +23,7 @@ var (
 )
 
 // generated lists every file this program owns, in the order they are written.
-var generated = []string{"Status.lean", "Coin.lean", "Bandwidth.lean", "Keys.lean", "Facts.lean"}
+var generated = []string{"Status.lean", "Coin.lean", "Bandwidth.lean", "Keys.lean", "Facts.lean", "Proto.lean"}
 
 func main() {
 	out := flag.String("out", "", "output directory (…/Hub/Generated)")
@@ -45,6 +45,7 @@ func main() {
 		genBandwidth("types/bandwidth.go", "types/bandwidth.pb.go", "Bandwidth"),
 		genKeys([]string{"deposit", "provider", "node", "plan", "subscription", "session", "swap", "mint"}),
 		genFacts(),
+		genProto(),
 	}
 	if err := os.MkdirAll(*out, 0o755); err != nil {
 		die(err)
